@@ -37,6 +37,8 @@ structure St where
 
 inductive Op
   | step (v : Val)                -- a live update of the bookkeeping to content `v` (`next()` moving the position)
+  | rebind (v : Val)              -- an update that builds a fresh object under every policy (`reset()` without a state:
+                                  --   `self._datasets_exhausted = {key: False …}`); sites mix both kinds
   | get                           -- `state_dict()` / `get_state()`: the user receives a dict
   | load (h : Nat)                -- `load_state_dict(d)` / `reset(d)` with the `h`-th dict the user holds
   | userNew (v : Val)             -- the user builds a dict of their own (unpickled checkpoint)
@@ -50,6 +52,7 @@ def step (p : Policy) (s : St) : Op → St
   | .step v =>
     if p.inPlace then { s with heap := write s.heap s.cur v }
     else { s with heap := write s.heap s.next v, next := s.next + 1, cur := s.next }
+  | .rebind v => { s with heap := write s.heap s.next v, next := s.next + 1, cur := s.next }
   | .get =>
     if p.copyOut then
       { s with heap := write s.heap s.next (s.heap s.cur), next := s.next + 1,
